@@ -13,3 +13,6 @@ func SocketPipes(s mangos.Socket) int { return core.VerifSocketPipes(s) }
 
 // SocketClosed reports whether Close has been called on the socket.
 func SocketClosed(s mangos.Socket) bool { return core.VerifSocketClosed(s) }
+
+// SetNextPipeID moves the id allocator's counter; ids in use stay in use.
+func SetNextPipeID(next uint32) { core.VerifSetNextPipeID(next) }
